@@ -309,3 +309,41 @@ theorem sorted_erase_nat {ν : Type} (m : KMap Nat ν) (k : Nat)
   exact hs.filter _
 
 end TxStore.KMap
+
+namespace TxStore.KMap
+variable {κ ν : Type} [DecidableEq κ]
+
+theorem erase_place_self [KOrd κ] (m : KMap κ ν) (k : κ) (v : ν) : erase (place m k v) k = erase m k := by
+  induction m with
+  | nil => simp [place, erase]
+  | cons p t ih =>
+    obtain ⟨a, b⟩ := p
+    unfold place
+    by_cases h2 : KOrd.lt k a = true
+    · simp [h2, erase, List.filter_cons]
+    · simp only [h2, if_false, Bool.false_eq_true]
+      unfold erase at ih ⊢
+      simp only [List.filter_cons, ih]
+
+theorem erase_erase (m : KMap κ ν) (k : κ) : erase (erase m k) k = erase m k := by
+  unfold erase; rw [List.filter_filter]; simp
+
+theorem insert_insert [KOrd κ] (m : KMap κ ν) (k : κ) (v w : ν) : insert (insert m k v) k w = insert m k w := by
+  unfold insert
+  rw [erase_place_self, erase_erase]
+
+/-- erasing the last (greatest) key of a sorted `Nat`-keyed bucket removes exactly the last entry -/
+theorem erase_last_nat {ν : Type} (init : KMap Nat ν) (h : Nat) (v : ν)
+    (hs : ((init ++ [(h, v)]).map (·.1)).Pairwise (· < ·)) : erase (init ++ [(h, v)]) h = init := by
+  unfold erase
+  rw [List.filter_append]
+  have h1 : List.filter (fun p : Nat × ν => !decide (p.1 = h)) init = init := by
+    rw [List.filter_eq_self]
+    intro q hq
+    rw [List.map_append, List.pairwise_append] at hs
+    have := hs.2.2 q.1 (List.mem_map.mpr ⟨q, hq, rfl⟩) h (by simp)
+    have : q.1 ≠ h := by omega
+    simp [this]
+  rw [h1]; simp
+
+end TxStore.KMap
